@@ -11,6 +11,7 @@ import DocsModel.Model.Ranger
 import DocsModel.Model.Replica
 import DocsModel.Model.Events
 import DocsModel.Model.Actor
+import DocsModel.Model.Codec
 /-!
 Line-protocol driver: one output line per input line. The Rust harness pipes the same operation
 lines it applied to the real crate and compares the two output streams.
@@ -251,6 +252,50 @@ def parseAction? : List String → Option Actor.Action
   | ["export", ns] => do pure (.exportSecret (← Bytes.ofHex ns))
   | _ => none
 
+namespace WireTok
+open Codec
+
+def showValue (v : WEntry × Nat) : String :=
+  ".".intercalate [v.1.auSig.toHex, v.1.nsSig.toHex, v.1.id.toHex, toString v.1.len, v.1.hash.toHex, toString v.1.ts, toString v.2]
+
+def showPart : WPart → String
+  | .fp x y fp => ",".intercalate ["F", x.toHex, y.toHex, fp.toHex]
+  | .item x y vs hl => ",".intercalate ["I", x.toHex, y.toHex, showBool hl,
+      if vs.isEmpty then "-" else "+".intercalate (vs.map showValue)]
+
+def showMsg (m : WMsg) : String := if m.isEmpty then "-" else "|".intercalate (m.map showPart)
+
+def showFrame : Frame → String
+  | .init ns m => "init;" ++ ns.toHex ++ ";" ++ showMsg m
+  | .sync m => "sync;" ++ showMsg m
+  | .abort r => "abort;" ++ toString r
+
+def parseValue? (s : String) : Option (WEntry × Nat) :=
+  match s.splitOn "." with
+  | [au, ns, id, len, hash, ts, st] => do
+    pure ({ auSig := ← Bytes.ofHex au, nsSig := ← Bytes.ofHex ns, id := ← Bytes.ofHex id, len := ← parseNat? len,
+            hash := ← Bytes.ofHex hash, ts := ← parseNat? ts }, ← parseNat? st)
+  | _ => none
+
+def parsePart? (s : String) : Option WPart :=
+  match s.splitOn "," with
+  | ["F", x, y, fp] => do pure (.fp (← Bytes.ofHex x) (← Bytes.ofHex y) (← Bytes.ofHex fp))
+  | ["I", x, y, hl, vs] => do
+    let vals ← if vs = "-" then some [] else (vs.splitOn "+").mapM parseValue?
+    pure (.item (← Bytes.ofHex x) (← Bytes.ofHex y) vals (← parseBool? hl))
+  | _ => none
+
+def parseMsg? (s : String) : Option WMsg := if s = "-" then some [] else (s.splitOn "|").mapM parsePart?
+
+def parseFrame? (s : String) : Option Frame :=
+  match s.splitOn ";" with
+  | ["init", ns, m] => do pure (.init (← Bytes.ofHex ns) (← parseMsg? m))
+  | ["sync", m] => do pure (.sync (← parseMsg? m))
+  | ["abort", r] => do pure (.abort (← parseNat? r))
+  | _ => none
+
+end WireTok
+
 def showInsertResult : Tables.InsertResult → String
   | .inserted n => "inserted " ++ toString n
   | .notInserted => "notinserted"
@@ -475,6 +520,31 @@ def step (w : World) (line : String) : World × String :=
       | none => (w, "no-store")
     | _, _, _, _, _, _ => (w, "bad-op")
   -- snapshots and the join specification of a session
+  -- ---- wire encodings (Codec.lean) ----
+  | ["cencode", tok] =>
+    match WireTok.parseFrame? tok with
+    | some f => (w, match Codec.encFrame f with | some b => "ok " ++ b.toHex | none => "err")
+    | none => (w, "bad-op")
+  | ["cencmsg", tok] =>
+    match WireTok.parseMsg? tok with
+    | some m => (w, "ok " ++ (Codec.encMsg m).toHex)
+    | none => (w, "bad-op")
+  | ["cdecmsg", hx] =>
+    match Bytes.ofHex hx with
+    | some b => (w, match Codec.decMsg b with | some (m, _) => "ok " ++ WireTok.showMsg m | none => "err")
+    | none => (w, "bad-op")
+  | ["cdecentry", hx] =>
+    match Bytes.ofHex hx with
+    | some b => (w, match Codec.decEntry b with | some (e, _) => "ok " ++ WireTok.showValue (e, 0) | none => "err")
+    | none => (w, "bad-op")
+  -- feed chunks (separated by `/`) to the incremental frame decoder
+  | ["cfeed", chunks] =>
+    match (chunks.splitOn "/").mapM Bytes.ofHex with
+    | some cs =>
+      let (fs, st) := Codec.feedChunks [] cs
+      (w, "frames " ++ toString fs.length ++ " " ++ "#".intercalate (fs.map WireTok.showFrame) ++
+        (match st with | some rest => " needmore " ++ toString rest.length | none => " error"))
+    | none => (w, "bad-op")
   -- ---- the store actor (Actor.lean) ----
   | ["anew", sid] =>
     match parseNat? sid with
